@@ -192,13 +192,51 @@ func (u *utcNorm) mapKeysUTC(m ast.Expr) bool {
 	} else if _, isMap := tv.Type.Underlying().(*types.Map); !isMap {
 		return false
 	}
+	if u.depth > 6 {
+		return false
+	}
+	u.depth++
+	defer func() { u.depth-- }()
+	// a map parameter: every call site must pass a map with UTC keys
+	if mv, ok := mobj.(*types.Var); ok {
+		if fnObj, idx := u.paramOf(mv); fnObj != nil {
+			callers, okAll := 0, true
+			for _, cfi := range u.c.Funcs(u.c.Pkgs) {
+				cinfo := cfi.Pkg.TypesInfo
+				ast.Inspect(cfi.Decl.Body, func(n ast.Node) bool {
+					call, ok := n.(*ast.CallExpr)
+					if !ok || calleeObj(cinfo, call) != types.Object(fnObj) || idx >= len(call.Args) {
+						return true
+					}
+					callers++
+					sub := &utcNorm{c: u.c, fi: cfi, depth: u.depth}
+					if !sub.mapKeysUTC(call.Args[idx]) {
+						okAll = false
+					}
+					return true
+				})
+			}
+			return callers > 0 && okAll
+		}
+	}
 	all, any := true, false
 	ast.Inspect(u.fi.Decl, func(n ast.Node) bool {
 		as, ok := n.(*ast.AssignStmt)
 		if !ok {
 			return true
 		}
-		for _, lh := range as.Lhs {
+		for i, lh := range as.Lhs {
+			// m := helper(...) — the map is built by a module function: the keys of what it returns
+			if lid, ok := ast.Unparen(lh).(*ast.Ident); ok && (info.Defs[lid] == mobj || info.Uses[lid] == mobj) && len(as.Lhs) == len(as.Rhs) {
+				if call, ok := ast.Unparen(as.Rhs[i]).(*ast.CallExpr); ok {
+					if fn, ok := calleeObj(info, call).(*types.Func); ok && strings.HasPrefix(objPkgPath(fn), modPath) {
+						any = true
+						if !u.returnsUTCKeyedMap(fn) {
+							all = false
+						}
+					}
+				}
+			}
 			ix, ok := lh.(*ast.IndexExpr)
 			if !ok {
 				continue
@@ -208,6 +246,33 @@ func (u *utcNorm) mapKeysUTC(m ast.Expr) bool {
 				if !u.isUTC(ix.Index) {
 					all = false
 				}
+			}
+		}
+		return true
+	})
+	return any && all
+}
+
+// returnsUTCKeyedMap: every return of the module function yields a local map all of whose stores have UTC keys.
+func (u *utcNorm) returnsUTCKeyedMap(fn *types.Func) bool {
+	p := u.c.ByPath[objPkgPath(fn)]
+	if p == nil {
+		return false
+	}
+	fd := u.c.declOf(p, fn)
+	if fd == nil || fd.Body == nil {
+		return false
+	}
+	sub := &utcNorm{c: u.c, fi: &FuncInfo{Pkg: p, Decl: fd}, depth: u.depth}
+	all, any := true, false
+	ast.Inspect(fd.Body, func(n ast.Node) bool {
+		if _, ok := n.(*ast.FuncLit); ok {
+			return false
+		}
+		if r, ok := n.(*ast.ReturnStmt); ok && len(r.Results) >= 1 {
+			any = true
+			if !sub.mapKeysUTC(r.Results[0]) {
+				all = false
 			}
 		}
 		return true
